@@ -72,6 +72,12 @@ def gen_scales(rng, depth=None, daqmx_ids=None):
                 if rng.random() < 0.5:
                     a, b = b, a
                 s = {'type': t, 'left': a, 'right': b}
+        if s['type'] == 'Linear' and rng.random() < 0.15:
+            s['slope'] = float(rng.choice([2, 3, -7, 100, 1000, -300]))
+            s['int_slope'] = True
+            if rng.random() < 0.3:
+                s['intercept'] = float(rng.choice([0, 1, -5, 40000]))
+                s['int_intercept'] = True
         scales.append(s)
     return scales
 
@@ -99,8 +105,15 @@ def scale_props(scales, with_count, status=None):
         p = 'NI_Scale[%d]_' % i
         out.append([p + 'Scale_Type', 'str', t])
         if t == 'Linear':
-            out.append([p + 'Linear_Slope', 'f64', f64(s['slope'])])
-            out.append([p + 'Linear_Y_Intercept', 'f64', f64(s['intercept'])])
+            # a coefficient may be stored with an integer type (TdmsWriter does that for a Python int)
+            if s.get('int_slope'):
+                out.append([p + 'Linear_Slope', 'i32', int(s['slope'])])
+            else:
+                out.append([p + 'Linear_Slope', 'f64', f64(s['slope'])])
+            if s.get('int_intercept'):
+                out.append([p + 'Linear_Y_Intercept', 'i32', int(s['intercept'])])
+            else:
+                out.append([p + 'Linear_Y_Intercept', 'f64', f64(s['intercept'])])
             if s['explicit_src']:
                 out.append([p + 'Linear_Input_Source', 'u32', s['src']])
         elif t == 'Polynomial':
